@@ -114,35 +114,27 @@ def isoformat(dt: datetime.date | datetime.time | datetime.timedelta) -> str:
     # A negative duration is written as the negated positive duration.
     if dt < datetime.timedelta(0):
         return f"-{isoformat(-dt)}"
-    dur: pendulum.Duration = (
-        dt
-        if isinstance(dt, pendulum.Duration)
-        else pendulum.duration(
-            days=dt.days,
-            seconds=dt.seconds,
-            microseconds=dt.microseconds,
-        )
-    )
+    if isinstance(dt, pendulum.Duration):
+        years, months = dt.years, dt.months
+        days = dt.weeks * 7 + dt.remaining_days
+        hours, minutes = dt.hours, dt.minutes
+        seconds, microseconds = dt.remaining_seconds, dt.microseconds
+    else:
+        # Exact integer arithmetic: `pendulum.duration()` goes through float seconds and
+        #   loses microseconds (or overflows) for durations of a few hundred years and up.
+        years = months = 0
+        days, microseconds = dt.days, dt.microseconds
+        hours, remainder = divmod(dt.seconds, 3600)
+        minutes, seconds = divmod(remainder, 60)
     datepart = "".join(
-        f"{p}{s}"
-        for p, s in (
-            (dur.years, "Y"),
-            (dur.months, "M"),
-            (dur.weeks * 7 + dur.remaining_days, "D"),
-        )
-        if p
+        f"{p}{s}" for p, s in ((years, "Y"), (months, "M"), (days, "D")) if p
     )
     timepart = "".join(
         f"{p}{s}"
         for p, s in (
-            (dur.hours, "H"),
-            (dur.minutes, "M"),
-            (
-                f"{dur.remaining_seconds}.{dur.microseconds:06}"
-                if dur.microseconds
-                else dur.remaining_seconds,
-                "S",
-            ),
+            (hours, "H"),
+            (minutes, "M"),
+            (f"{seconds}.{microseconds:06}" if microseconds else seconds, "S"),
         )
         if p
     )
